@@ -9,7 +9,7 @@ cd "$(dirname "$0")/.."
 names=${*:-$(ls harmless)}
 bad=0
 for n in $names; do
-  git -C $R checkout -q -- . ; git -C $R apply harmless/$n/patch.diff || { echo "$n PATCH-DOES-NOT-APPLY"; bad=1; continue; }
+  git -C $R checkout -q -- . ; git -C $R apply "$PWD/harmless/$n/patch.diff" || { echo "$n PATCH-DOES-NOT-APPLY"; bad=1; continue; }
   files=$(git -C $R diff --name-only)
   ids=$(python3 - $files <<'PY'
 import json,sys
